@@ -1,7 +1,7 @@
 """`whole-run-r` protocol: complete Backtest.run() of generated programs that contain blotter-driven strategies - a strategy whose
 stack is `[ReplayTransactions(frame)]` or `[SimulateRFQTransactions(frame, model)]` over children declared up front as Security
 objects - flat, or nested under a parent with an ordinary `[RunPeriod, SelectAll | SelectThese, WeighEqually | WeighSpecified,
-Rebalance]` stack (the sub-strategy's shadow copy then replays the blotter too).  The real code is executed; from the real
+Rebalance]` stack (the sub-strategy's shadow copy then replays the blotter too - from the first real date on, like the child).  The real code is executed; from the real
 post-setup trees (the backtest's own and every shadow copy's) the Lean model `Bt.Prog.simRunG` - node function `progRunR`, driver
 tag `B` - runs the same program, and the final trees are compared by `whole_run.whole_run_protocol` itself (every field and every
 recorded row of every node, shadow copies included, bit for bit).
@@ -96,7 +96,9 @@ def gen_spec_r(rng, nested=None):
     if not nested:
         spec["tree"] = blotter_node("top", True)
     else:
-        kids = [blotter_node("top_b%d" % i, False) for i in range(rng.randint(1, 2))]
+        # (rows stamped at or before the synthetic row are allowed in sub-strategies too: a shadow copy is not run on the synthetic
+        # row - since the repair of StrategyBase.update -, so they are never executed, neither by the child nor by its copy)
+        kids = [blotter_node("top_b%d" % i, True) for i in range(rng.randint(1, 2))]
         if rng.random() < 0.3:                                       # an ordinary sub-strategy next to them
             own = rng.sample(tick, rng.randint(1, len(tick)))
             kids.insert(rng.randint(0, len(kids)), {"name": "top_s", "tickers": own, "kids": [], "stack": W.gen_stack(rng, own)})
